@@ -140,6 +140,7 @@ def depth_obligations(pid, mir_text, info, add, violations, inconclusive):
         binfo["mir_sha256"] = hashlib.sha256(cbs[name].encode()).hexdigest()[:12]
         info["check_block"][name] = binfo
         info["functions_encoded"].append(f"checker::{name}::check_block (MIR sha256 {binfo['mir_sha256']}, {binfo['blocks']} basic blocks, {binfo['round_paths']} paths per job, inner loops {binfo['inner_loops_havocked']} abstracted by havoc)")
+        info["functions_encoded"].append(f"checker::{name} spawn() ({sinfo['blocks']} basic blocks, {sinfo['paths']} paths, loops {sinfo['loops_havocked']} havocked) and its boundary-filter closure ({sinfo['filter_closures']})")
         seen_kinds = set()
         for o in res:
             add(o["obligation"], o["result"], **({"witness": o["witness"]} if o.get("witness") else {}))
@@ -173,12 +174,16 @@ def disc_obligations(pid, d, mir_text, t_mir, info, add, violations, inconclusiv
             # every dequeued job is evaluated unless the depth limit says otherwise (obligation D1 of blockloop.py, shared with C12)
             dres, _ = blockloop.obligations(name, cbs[name], helpers=blockloop.find_helpers(mir_text, name))
             res = res + [dict(o, tag="C01,C02") for o in dres if "a popped job is skipped only" in o["obligation"]]
+        sres, sinfo = discloop.spawn_obligations(name, mir_text, lib_rs)
+        info.setdefault("spawn", {})[name] = sinfo
+        res = res + sres
         mine = [o for o in res if pid in o["tag"].split(",")]
         binfo["obligations_of_this_property"] = len(mine)
         binfo["obligations_all_four_properties"] = len(res)
         info["check_block"][name] = binfo
         q += binfo["z3_feasibility_queries"]
         info["functions_encoded"].append(f"checker::{name}::check_block (MIR sha256 {binfo['mir_sha256']}, {binfo['blocks']} basic blocks, {binfo['round_paths']} paths per job, inner loops {binfo['inner_loops_havocked']} abstracted by havoc)")
+        info["functions_encoded"].append(f"checker::{name} spawn() ({sinfo['blocks']} basic blocks, {sinfo['paths']} paths, loops {sinfo['loops_havocked']} havocked) and its boundary-filter closure ({sinfo['filter_closures']})")
         if not mine:
             raise Unsupported(f"{name} check_block: no obligation of {pid} could be stated")
         for o in mine:
